@@ -465,6 +465,24 @@ func (b *Built) Close() error {
 	return first
 }
 
+// Release closes the tree and empties everything the case created in memory (harness stores and
+// KVs, in-memory leaves): the instances stay reachable from perkeep's process-global hub map, their
+// contents need not.
+func (b *Built) Release() {
+	b.Close()
+	for _, n := range b.order {
+		if ms, ok := b.nodes[n].(*memory.Storage); ok {
+			var refs []blob.Ref
+			for _, s := range ms.BlobrefStrings() {
+				refs = append(refs, blob.MustParse(s))
+			}
+			ms.RemoveBlobs(ctxBG, refs)
+		}
+	}
+	b.Env.ReleaseAll()
+	b.nodes = nil
+}
+
 // Reopen closes the tree and instantiates it again over the same directories
 // and named harness stores/KVs (= a clean restart).
 func (b *Built) Reopen() error {
